@@ -5,6 +5,7 @@ import (
 	"net"
 	"os"
 	"runtime"
+	"strings"
 	"sync"
 	"sync/atomic"
 	"testing"
@@ -29,10 +30,15 @@ import (
 // can tell whether the call that created it had returned at that moment. (The registry is kept
 // by the harness and not in the session's Swap: a redial resets the socket and with it the Swap.)
 type estMark struct {
-	reg  sync.Map // session (as interface value) -> *int64: nanoseconds since base at which Dial/ServeConn had returned; 0 = not yet
+	reg  sync.Map // session (as interface value) -> *estEntry
 	base time.Time
 
 	redialHooks int64
+}
+
+type estEntry struct {
+	doneAt int64 // nanoseconds since base at which Dial/ServeConn had returned; 0 = not yet
+	dialed bool  // created by Dial (false: by ServeConn)
 }
 
 func (m *estMark) Name() string { return "c14establish" }
@@ -42,12 +48,12 @@ func (m *estMark) PostDial(s erpc.PreSession, isRedial bool) *erpc.Status {
 		atomic.AddInt64(&m.redialHooks, 1)
 		return nil
 	}
-	m.reg.Store(interface{}(s), new(int64))
+	m.reg.Store(interface{}(s), &estEntry{dialed: true})
 	return nil
 }
 
 func (m *estMark) PostAccept(s erpc.PreSession) *erpc.Status {
-	m.reg.Store(interface{}(s), new(int64))
+	m.reg.Store(interface{}(s), &estEntry{})
 	return nil
 }
 
@@ -62,7 +68,7 @@ func (m *estMark) now() int64 {
 // returned is called by the establishing goroutine right after Dial / ServeConn returned.
 func (m *estMark) returned(s erpc.Session) {
 	if v, ok := m.reg.Load(interface{}(s)); ok {
-		atomic.StoreInt64(v.(*int64), m.now())
+		atomic.StoreInt64(&v.(*estEntry).doneAt, m.now())
 	}
 }
 
@@ -70,20 +76,26 @@ func (m *estMark) returned(s erpc.Session) {
 const estWindow = int64(300 * time.Microsecond)
 
 // age classifies a sighting: 0 = the establishing call had not returned yet, 1 = it returned
-// less than estWindow ago, 2 = older (or a session that is not registered, e.g. of the serving peer).
+// less than estWindow ago, 2 = older (or a session that is not registered, e.g. of the serving
+// peer); +3 for a session created by ServeConn rather than Dial.
 func (m *estMark) age(s erpc.Session) int {
 	v, ok := m.reg.Load(interface{}(s))
 	if !ok {
 		return 2
 	}
-	d := atomic.LoadInt64(v.(*int64))
+	e := v.(*estEntry)
+	k := 0
+	if !e.dialed {
+		k = 3
+	}
+	d := atomic.LoadInt64(&e.doneAt)
 	if d == 0 {
-		return 0
+		return k
 	}
 	if m.now()-d < estWindow {
-		return 1
+		return k + 1
 	}
-	return 2
+	return k + 2
 }
 
 // estServer is the harness-owned loopback listener in front of the serving peer. For every
@@ -288,13 +300,14 @@ func genEstCase(t *rapid.T) estCase {
 }
 
 type estResult struct {
-	skip                      string
-	established, dialFailed   int64
-	before, window, later     int64 // sightings by age class
-	disturbed                 int64 // sightings of a session that was not healthy
-	redialHooks, kills, accs  int64
-	workerOps                 int64
-	notSettled                bool
+	skip                     string
+	established, dialFailed  int64
+	before, window, later    int64 // sightings of dialed sessions by age class
+	servedEarly              int64 // sightings of sessions created by ServeConn before / right after it returned
+	disturbed                int64 // sightings of a session that was not healthy
+	redialHooks, kills, accs int64
+	workerOps                int64
+	notSettled               bool
 }
 
 func runEstCase(c estCase) estResult {
@@ -333,7 +346,7 @@ func runEstCase(c estCase) estResult {
 		wwg     sync.WaitGroup
 		mine    = make([][]erpc.Session, len(c.Est))
 		pairs   = make([][]*vt.Pair, len(c.Est))
-		sighted [3]int64
+		sighted [6]int64
 	)
 	see := func(s erpc.Session) {
 		atomic.AddInt64(&sighted[mark.age(s)], 1)
@@ -587,7 +600,11 @@ func runEstCase(c estCase) estResult {
 		cli.RangeSession(func(s erpc.Session) bool { fmt.Printf("  cli sess %s health=%v\n", s.ID(), s.Health()); return true })
 		fmt.Println(vt.GoroutineDump())
 	}
+	if os.Getenv("C14E_DEBUG") != "" {
+		fmt.Printf("case done: goroutines=%d redialing=%v\n", runtime.NumGoroutine(), strings.Contains(vt.GoroutineDump(), "dialWithRetry"))
+	}
 	res.before, res.window, res.later = atomic.LoadInt64(&sighted[0]), atomic.LoadInt64(&sighted[1]), atomic.LoadInt64(&sighted[2])
+	res.servedEarly = atomic.LoadInt64(&sighted[3]) + atomic.LoadInt64(&sighted[4])
 	res.redialHooks = atomic.LoadInt64(&mark.redialHooks)
 	res.kills = atomic.LoadInt64(&ts.nKilled)
 	res.accs = atomic.LoadInt64(&ts.nAccepted)
@@ -595,7 +612,7 @@ func runEstCase(c estCase) estResult {
 }
 
 func TestC14Establish(t *testing.T) {
-	rec := vt.NewRec(t, "C14", "establish", "session establishment inside the concurrent program: a client peer with generated redial configuration (RedialTimes 0 / 1 / 3 / unlimited, RedialInterval 1-3 ms; protocol default / raw / json / pb); 1-4 goroutines keep establishing sessions (peer.Dial over loopback TCP to a harness-owned listener in front of a serving peer, or ServeConn over the in-memory transport), 2-10 sessions each, and then leave / use / close them; the listener treats every accepted connection by a generated plan (keep, kill at once, kill when served, kill 1-3 accepts later; bounded kill budget), so fresh sessions run into disconnect and redial handling at once; meanwhile 2-8 goroutines loop over 1-5 documented-safe operations on whatever sessions the peers currently list (RangeSession with Health / ID / Swap access, GetSession, CountSession, SetID, Swap store/load/range, Health, CloseNotify, Call and Push in both directions, Close on either side); oracle: the Go race detector (reports parsed by the driver, both accesses in framework code); non-trivial = redial enabled and an enumerating goroutine met a session whose Dial/ServeConn had not returned yet or had returned less than 300us before (measured through a registry filled by the dial/accept hook); distinct by case")
+	rec := vt.NewRec(t, "C14", "establish", "session establishment inside the concurrent program: a client peer with generated redial configuration (RedialTimes 0 / 1 / 3 / unlimited, RedialInterval 1-3 ms; protocol default / raw / json / pb); 1-4 goroutines keep establishing sessions (peer.Dial over loopback TCP to a harness-owned listener in front of a serving peer, or ServeConn over the in-memory transport), 2-10 sessions each, and then leave / use / close them; the listener treats every accepted connection by a generated plan (keep, kill at once, kill when served, kill 1-3 accepts later; bounded kill budget), so fresh sessions run into disconnect and redial handling at once; meanwhile 2-8 goroutines loop over 1-5 documented-safe operations on whatever sessions the peers currently list (RangeSession with Health / ID / Swap access, GetSession, CountSession, SetID, Swap store/load/range, Health, CloseNotify, Call and Push in both directions, Close on either side); oracle: the Go race detector (reports parsed by the driver, both accesses in framework code); non-trivial = redial enabled and an enumerating goroutine met a dialed session whose Dial had not returned yet or had returned less than 300us before (measured through a registry filled by the dial/accept hook); distinct by case")
 	rapid.Check(t, func(t *rapid.T) {
 		c := genEstCase(t)
 		r := runEstCase(c)
@@ -608,7 +625,7 @@ func TestC14Establish(t *testing.T) {
 			fmt.Sprintf("redial=%d", c.Redial), "proto=" + c.Proto,
 			fmt.Sprintf("met-before-return=%v", r.before > 0), fmt.Sprintf("met-in-window=%v", r.window > 0),
 			fmt.Sprintf("redialed=%v", r.redialHooks > 0), fmt.Sprintf("killed=%v", r.kills > 0),
-			fmt.Sprintf("met-unhealthy=%v", r.disturbed > 0),
+			fmt.Sprintf("met-unhealthy=%v", r.disturbed > 0), fmt.Sprintf("met-served-early=%v", r.servedEarly > 0),
 		}
 		if r.notSettled {
 			classes = append(classes, "teardown-not-settled")
